@@ -1,0 +1,110 @@
+//go:build verif
+
+// Contracts for govc (/verif): C31 every message the node sends fits the transport limit. Comment-only file.
+// The QUIC stream is modelled by ghost state (see /verif/govc/trusted/c31.spec): wlen/bytes_w (written), rpos/bytes_r (received).
+
+package p2p
+
+//@ -- a frame header at position p of byte sequence s announcing n payload bytes: version byte, one unused byte, 4-byte big-endian length
+//@ spec Announced(s [0]byte, p mathint) mathint = s[p+2]*16777216 + s[p+3]*65536 + s[p+4]*256 + s[p+5]
+//@ spec FrameAt(s [0]byte, p mathint, n mathint) bool = s[p] == TransportMessageVersion && Announced(s, p) == n
+
+//@ func (c *QuicClient) Send
+//@   property C31
+//@   requires c != nil && c.stream != nil
+//@   requires io.ErrShortWrite != nil                 -- package-level sentinel error, initialised once by package io
+//@   requires ghostint(wlen, c.stream) >= 0           -- ghost well-formedness: a byte count
+//@   ensures [reject] (len(data) < 1 || len(data) > TransportMessageMaxSize) ==> result != nil &&
+//@       ghostint(wlen, c.stream) == old(ghostint(wlen, c.stream)) && ghostbytes(bytes_w, c.stream) == old(ghostbytes(bytes_w, c.stream))
+//@   ensures [framed] result == nil ==> ghostint(wlen, c.stream) == old(ghostint(wlen, c.stream)) + TransportMessageHeaderSize + len(data) &&
+//@       FrameAt(ghostbytes(bytes_w, c.stream), old(ghostint(wlen, c.stream)), len(data))
+//@   ensures [payload] result == nil ==> forall i int :: 0 <= i && i < len(data) ==>
+//@       ghostbytes(bytes_w, c.stream)[old(ghostint(wlen, c.stream)) + TransportMessageHeaderSize + i] == data[i]
+//@   ensures [appendonly] forall j int :: 0 <= j && j < old(ghostint(wlen, c.stream)) ==> ghostbytes(bytes_w, c.stream)[j] == old(ghostbytes(bytes_w, c.stream)[j])
+
+//@ func (c *QuicClient) receiveWithLimit
+//@   property C08, C31
+//@   requires c != nil && c.stream != nil
+//@   requires ghostint(rpos, c.stream) >= 0          -- ghost well-formedness: a byte count
+//@   unreachable return@8    -- `if s != TransportMessageHeaderSize` after io.ReadFull returned nil: dead under io.ReadFull's documented contract (proved, not assumed)
+//@   ensures [limit] (maxSize == 0 || maxSize > TransportMessageMaxSize) ==> err != nil && result0 == nil &&
+//@       ghostint(rpos, c.stream) == old(ghostint(rpos, c.stream)) && allocated() == old(allocated())
+//@   ensures [allocbound] old(allocated()) <= allocated() && allocated() - old(allocated()) <= maxSize && allocated() - old(allocated()) <= TransportMessageMaxSize
+//@   ensures [oversize] ghostint(rpos, c.stream) >= old(ghostint(rpos, c.stream)) + TransportMessageHeaderSize &&
+//@       ghostbytes(bytes_r, c.stream)[old(ghostint(rpos, c.stream))] == TransportMessageVersion &&
+//@       Announced(ghostbytes(bytes_r, c.stream), old(ghostint(rpos, c.stream))) > maxSize ==>
+//@       err != nil && result0 == nil && allocated() == old(allocated()) && ghostint(rpos, c.stream) == old(ghostint(rpos, c.stream)) + TransportMessageHeaderSize
+//@   ensures [frame] err == nil ==> result0 != nil && result0.Version == TransportMessageVersion && result0.Size <= maxSize && len(result0.Data) == result0.Size &&
+//@       FrameAt(ghostbytes(bytes_r, c.stream), old(ghostint(rpos, c.stream)), result0.Size) &&
+//@       ghostint(rpos, c.stream) == old(ghostint(rpos, c.stream)) + TransportMessageHeaderSize + result0.Size
+//@   ensures [payload] err == nil ==> forall i int :: 0 <= i && i < result0.Size ==>
+//@       result0.Data[i] == ghostbytes(bytes_r, c.stream)[old(ghostint(rpos, c.stream)) + TransportMessageHeaderSize + i]
+//@   requires [client] c != nil
+//@   ensures [bounded] err == nil ==> result0 != nil && len(result0.Data) <= TransportMessageMaxSize && len(result0.Data) <= maxSize
+
+//@ -- bytes buildRelayMessage puts in front of a relayed message: type byte + two 32-byte ids
+//@ spec RelayOverhead() mathint = 65
+
+// ───────────── message builders (handle.go): length accounting ─────────────
+// common.MLenOf(tx) is len(tx.Marshal()). The auxiliary variable S of buildTransactionsPayload is the length the bundle must
+// have: 1 (count byte) plus, for every element, 4 (length prefix) + MLenOf(element); it is advanced once per loop iteration.
+
+//@ func buildTransactionsPayload
+//@   property C08, C31
+//@   requires forall k int :: 0 <= k && k < len(txs) ==> txs[k] != nil && common.DecodedTx(&txs[k].SignedTransaction)      -- callers pass transactions read from the store / decoded from the wire
+//@   panics when len(txs) > common.SnapshotTransactionsMaximum
+//@   ghost S = 1
+//@   at "data = append(data, pl...)" ghost S = ghostvar(S) + 4 + common.MLenOf(txs[i])
+//@   ensures [exact] len(result) == ghostvar(S)
+//@   ensures [lower] len(result) >= 1 + 4 * len(txs)
+//@   -- the builder alone bounds the bundle only by count x the per-transaction cap (about 1 GiB): fitting the transport limit is the batcher's duty (kernel, F6)
+//@   ensures [upper] len(result) <= 1 + len(txs) * (4 + config.TransactionMaximumSize)
+//@   loop 0 invariant [idx] i < len(txs)
+//@   loop 0 invariant [exact] len(data) == ghostvar(S)
+//@   loop 0 invariant [lower] len(data) >= 1 + 4 * i
+//@   loop 0 invariant [upper] len(data) <= 1 + i * (4 + config.TransactionMaximumSize)
+//@   requires [txs] forall i int :: 0 <= i && i < len(txs) ==> txs[i] != nil && common.DecodedTx(&txs[i].SignedTransaction)
+//@   ensures [layout] len(result) >= 1 + 4 * len(txs) && result[0] == len(txs)
+//@   loop 0 invariant 0 <= i && i < len(txs) && len(data) >= 1 + 4 * i && data[0] == len(txs) && fresh(data)
+//@   modifies nothing -- writes only the buffer it allocates
+
+//@ func buildTransactionsMessage
+//@   property C08, C31
+//@   requires forall k int :: 0 <= k && k < len(txs) ==> txs[k] != nil && common.DecodedTx(&txs[k].SignedTransaction)
+//@   -- the panic of buildTransactionsPayload is excluded by the callers: the batcher's batch has at most 255 elements
+//@   -- (kernel.popAndProcessCacheQueue, invariant [count]); snapshots carry at most 255 transactions (decoder rule)
+//@   requires len(txs) <= common.SnapshotTransactionsMaximum
+//@   ensures [lower] len(result) >= 2 + 4 * len(txs)
+//@   ensures [upper] len(result) <= 2 + len(txs) * (4 + config.TransactionMaximumSize)
+//@   requires [txs] forall i int :: 0 <= i && i < len(txs) ==> txs[i] != nil && common.DecodedTx(&txs[i].SignedTransaction)
+//@   ensures [layout] len(result) >= 2 + 4 * len(txs) && result[0] == typ && result[1] == len(txs)
+
+//@ func buildTransactionMessage
+//@   property C08, C31
+//@   requires ver != nil && common.DecodedTx(&ver.SignedTransaction)
+//@   ensures [exact] len(result) == 1 + common.MLenOf(ver)
+//@   ensures [fits] len(result) + RelayOverhead() <= TransportMessageMaxSize
+//@   ensures [layout] len(result) >= 1 && result[0] == PeerMessageTypeTransaction
+
+//@ -- func buildSnapshotConfirmMessage: contract in zz_contracts_c08_verif.go (properties C08, C31)
+//@ -- func buildTransactionRequestMessage: contract in zz_contracts_c08_verif.go (properties C08, C31)
+//@ -- func buildSnapshotResponseMessage: contract in zz_contracts_c08_verif.go (properties C08, C31)
+//@ -- func buildAuthenticationMessage: contract in zz_contracts_c08_verif.go (properties C08, C31)
+
+//@ -- func (me *Peer) buildRelayMessage: contract in zz_contracts_c08_verif.go (properties C08, C31)
+
+// ───────────── snapshot-exchange builders: length formulas over SnapLenOf(s) = len(s.VersionedMarshal()) ─────────────
+
+//@ assume func (h SyncHandle) SignData(data)
+//@   -- implemented by kernel.Node.SignData: signs Blake3(data), reads only
+//@   modifies nothing
+
+//@ -- func buildBatchSnapshotFinalizationMessage: contract in zz_contracts_c08_verif.go (properties C08, C31)
+
+//@ -- func buildBatchSnapshotAnnouncementMessage: contract in zz_contracts_c08_verif.go (properties C08, C31)
+
+//@ -- func buildBatchSnapshotCommitmentMessage: contract in zz_contracts_c08_verif.go (properties C08, C31)
+
+//@ -- func buildBatchTransactionChallengeMessage: contract in zz_contracts_c08_verif.go (properties C08, C31)
+
+//@ -- func buildBatchFullChallengeMessage: contract in zz_contracts_c08_verif.go (properties C08, C31)
